@@ -13,6 +13,9 @@ Legal behaviours reproduced (the nondeterministic specification of the real pool
   * workers make progress while the caller is still submitting, and while the caller blocks;
   * `as_completed(fs)` first yields the futures already finished at the call in an arbitrary
     order (CPython iterates a set there), then the others in completion order;
+  * time is virtual: while the simulated names are installed, `time.time/monotonic/perf_counter` (and `_ns`) read the
+    simulation's clock and `time.sleep` advances it; a task body advances it by the duration the case gives that stage
+    (`advance`).  A run therefore cannot depend on real time, and "branch b took 50 ms" is data of the case;
   * a task body may itself use a pool (a model nested in a branch).  While that body waits, the
     scheduler may start and run to completion any other startable task of any pool of the
     universe — including a second forward of the very object the waiting body is inside — so two
@@ -81,6 +84,8 @@ class Sim:
         self.max_inflight = 0
         self.eager_bias = eager_bias
         self.timeouts_fired = 0
+        self.now = 0.0  # virtual seconds: advanced only by task bodies that declare a duration and by time.sleep
+        self.clock_reads = 0
         self.depth = 0  # task bodies currently on the stack
         self.nested_starts = 0  # tasks of an outer pool started while a task body (with its own pool) was waiting
 
@@ -176,6 +181,12 @@ class _Task:
 
 
 _CURRENT: Optional[Sim] = None
+
+
+def advance(seconds: float) -> None:
+    """A task body declares that it took `seconds` of (virtual) time."""
+    if _CURRENT is not None and seconds > 0:
+        _CURRENT.now += float(seconds)
 
 
 class SimExecutor:
@@ -299,12 +310,31 @@ def installed(sim: Sim, modules: List[Any]):
                     setattr(m, name, repl)
                 except Exception:
                     pass
+    # the clock: every reading of time inside the simulation is the virtual clock (nothing in a run may depend on real time)
+    import time as _time
+
+    t_saved = {n: getattr(_time, n) for n in ("time", "monotonic", "perf_counter", "time_ns", "monotonic_ns", "perf_counter_ns", "sleep")}
+    base = 1.7e9
+
+    def _read(offset=0.0):
+        sim.clock_reads += 1
+        return offset + sim.now
+
+    _time.time = lambda: _read(base)
+    _time.monotonic = lambda: _read(1000.0)
+    _time.perf_counter = lambda: _read(1000.0)
+    _time.time_ns = lambda: int(_read(base) * 1e9)
+    _time.monotonic_ns = lambda: int(_read(1000.0) * 1e9)
+    _time.perf_counter_ns = lambda: int(_read(1000.0) * 1e9)
+    _time.sleep = lambda sec: advance(sec)
     prev = _CURRENT
     _CURRENT = sim
     try:
         yield sim
     finally:
         _CURRENT = prev
+        for n, f in t_saved.items():
+            setattr(_time, n, f)
         for m, name, old, had in reversed(saved):
             if had:
                 setattr(m, name, old)
